@@ -59,7 +59,7 @@ PLAN = dict(
     ],
     drive=[dict(bin="c09", args=["c09"])],
     tv=[dict(glob="layout-*.ndjson", module="Trace_Layout", cfg="Trace_Layout.cfg", corrupt=["accepted"], timeout_thorough=3600,
-             corrupt_filter=lambda e: e.get("ev") == "cand" and e["accepted"] is True and e["corr"] in DEFINITE)],
+             corrupt_filter=lambda e: e.get("ev") == "cand" and e["accepted"] is True and any(e["corr"].startswith(x) for x in DEFINITE))],
     extra_steps=[
         nested_selftest("layout-*.ndjson", "Trace_Layout", "Trace_Layout.cfg",
                         [("null_count", _nc), ("length", _len), ("offset", _offs), ("result", _got), ("crash", _crash), ("batch", _batch)]),
@@ -67,8 +67,8 @@ PLAN = dict(
     ],
     level_text="Bounded systematic enumeration: every corruption kind (one offset out of order / negative / out of bounds, one key / type id / "
                "dense offset / view field / run end out of range, length+offset overflow and near-overflow, short and misaligned buffers, wrong "
-               "child type / count / length, wrong null count, invalid UTF-8 of every class, validity bitmap too short or on a type without one) "
-               "x every type family x {offset 0, sliced} is materialised with real buffers and passed to every validating entry point of arrow-rs "
+               "child type / count / length, wrong null count, invalid UTF-8 of every class, each individual offset / view moved into the middle of a code point while the buffer stays valid UTF-8, validity bitmap too short or on a type without one) "
+               "x every type family x {first, middle, last element} x {offset 0, sliced} is materialised with real buffers and passed to every validating entry point of arrow-rs "
                "(ArrayData::try_new, ArrayDataBuilder::build with and without align_buffers, build_unchecked + validate_full incl. nested children, "
                "typed try_new constructors and checked buffer constructors, RecordBatch::try_new(_with_options), to_ffi -> from_ffi -> validate_full "
                "incl. a tampered C struct). The verdict of each call is re-judged by TLC with the independent validator WellFormed of "
